@@ -422,6 +422,57 @@ def ob_mixed(gridname, name, primal, dual, seg):
     return held("relative difference %.2e, %s" % (r["relative_error"], r["shape"]))
 
 
+def replay_bc_restriction(kind):
+    """BC / RBC on a part of the grid (default options: truncated at the segment edge) are the whole-grid functions of the interior edges of the part, restricted to it -
+    whether the part is selected by `support_elements` on an unlabelled grid or by `segments` on a labelled copy: the barycentric coefficients on the elements of the part
+    agree, function by function (functions matched through their coarse edge)."""
+    import bempp_cl.api as api
+
+    warnings.simplefilter("ignore")
+    v, e = SG.octa()
+    g0 = SG.make_grid(v, e).refine()
+    cap = [int(E) for E in range(g0.number_of_elements) if g0.centroids[E, 2] > 0.05]
+    labels = np.array([1 if E in cap else 2 for E in range(g0.number_of_elements)], dtype="uint32")
+    failing, worst = [], 0.0
+
+    def table(grid, **kw):
+        sp = api.function_space(grid, kind, 0, **kw)
+        rw = api.function_space(grid, "RWG", 0, **kw)
+        T = BC.dense(sp.dof_transformation)
+        l2g, mult = np.asarray(sp.local2global), np.asarray(sp.local_multipliers)
+        out = {}
+        for d in range(T.shape[1]):
+            E, i = rw.global2local[d][0]
+            edge = tuple(sorted(int(x) for x in grid.edges[:, int(grid.element_edges[i, E])]))
+            out[edge] = {(b, j): T[int(l2g[b, j]), d] * mult[b, j] for b in np.flatnonzero(sp.support) for j in range(3)}
+        return out, sp
+
+    full, _ = table(SG.make_grid(g0.vertices, g0.elements))
+    for label, grid, kw in (("support_elements on an unlabelled grid", SG.make_grid(g0.vertices, g0.elements), {"support_elements": np.array(cap, dtype="uint32")}),
+                            ("segments on a labelled grid", SG.make_grid(g0.vertices, g0.elements, labels), {"segments": [1]})):
+        part, sp = table(grid, **kw)
+        if not part:
+            failing.append("%s: no functions" % label)
+        for edge, coefs in part.items():
+            if edge not in full:
+                failing.append("%s: function on edge %s does not exist on the whole grid" % (label, edge))
+                continue
+            dev = max(abs(c - full[edge].get(key, 0.0)) for key, c in coefs.items())
+            worst = max(worst, dev)
+            if dev > 1e-12:
+                failing.append("%s: function of edge %s deviates from the restricted whole-grid function by %.2e" % (label, edge, dev))
+    return {"violates": bool(failing), "failing": failing[:6], "worst": worst}
+
+
+def ob_bc_restriction(kind):
+    """bounded: see replay_bc_restriction"""
+    r = replay_bc_restriction(kind)
+    if r["violates"]:
+        return violated("%s on a part of the grid is not the restriction of the whole-grid functions: %s" % (kind, r["failing"][:2]), witness={"kind": kind, "failing": r["failing"]},
+                        signature="bc-restriction/%s" % kind, replay={"callable": "checks.c10:replay_bc_restriction", "kwargs": {"kind": kind}, "confirmed": True, "result": r})
+    return held("support_elements and segments selections agree with the restricted whole-grid functions (%.1e)" % r["worst"])
+
+
 def replay_bc_divergence(mesh, kind, seed):
     """Flux pattern of the BC / RBC basis functions read off the dof transformation: for the function of the coarse edge (v1, v2) the integral of the surface
     divergence over a barycentric element adjacent to an INTERIOR end point v is +-1 / (2 n_v) (n_v coarse triangles at v; one sign per end point, opposite signs at
@@ -513,6 +564,8 @@ def main():
     for mesh in ["tetra", "octa", "screen2", "screen3"] + (["cube12", "torus33"] if thorough else []):
         for kind in ("BC", "RBC"):
             run.add("bc-divergence-pattern[%s %s]" % (mesh, kind), "bounded", ob_bc_divergence, mesh, kind, 1)
+    for kind in ("BC", "RBC"):
+        run.add("bc-restriction[refined octa, cap, %s]" % kind, "bounded", ob_bc_restriction, kind)
     run.add("mixed-mass[octa P1 x DUAL0 segments]", "bounded", ob_mixed, "octa", "P1 x DUAL0", ("P", 1, {}), ("DUAL", 0, {}), (2,))
     run.add("mixed-mass[octa DP0 x DUAL1 segments]", "bounded", ob_mixed, "octa", "DP0 x DUAL1", ("DP", 0, {}), ("DUAL", 1, {}), (2,))
     run.add("mixed-mass[octa SNC x BC segments]", "bounded", ob_mixed, "octa", "SNC x BC", ("SNC", 0, {}), ("BC", 0, {}), (2,))
